@@ -49,6 +49,10 @@ def parse_spec(path):
         elif kind == '@proof':
             where, anchor = arg.split(None, 1)
             secs['proofs'].append((anchor, where, text))
+        elif kind == '@replace':
+            secs['_pending_replace'] = text
+        elif kind == '@with':
+            secs['subst'].append(('~' + secs.pop('_pending_replace'), text.strip('\n')))
         elif kind == '@subst':
             for l in buf:
                 if '==>' in l:
